@@ -167,3 +167,48 @@ def constructor_boundaries(ctx):
     if not (np.array_equal(v, v0) and np.array_equal(u, u0) and np.array_equal(w, w0) and np.array_equal(r1, r2)):
       ctx.violation('rotate_np / quat_mul_np altered their arguments (or are not functions of them)',
                     {'vec_before': v0.tolist(), 'vec_after': v.tolist(), 'quat': u0.tolist()}, {'call': 'rotate_np', 'predicate': 'mutation'})
+  # the numpy variants with integer-typed operands (a literal [0, 1, 0, 0] in a model builder) against half-integer floats
+  def qmul(a, b):
+    return np.array([a[0] * b[0] - a[1] * b[1] - a[2] * b[2] - a[3] * b[3], a[0] * b[1] + a[1] * b[0] + a[2] * b[3] - a[3] * b[2],
+                     a[0] * b[2] - a[1] * b[3] + a[2] * b[0] + a[3] * b[1], a[0] * b[3] + a[1] * b[2] - a[2] * b[1] + a[3] * b[0]], float)
+  for k in range(24):
+    ui = rs.randint(-3, 4, size=4)
+    wf = rs.randint(-7, 8, size=4) / 2.0
+    vi = rs.randint(-5, 6, size=3)
+    variants = [(ui.astype(np.int64), wf), (wf, ui.astype(np.int32)), (ui.astype(np.int64), ui[::-1].astype(np.int32).copy())]
+    for a, b in variants:
+      got = np.asarray(math.quat_mul_np(a, b), float)
+      want = qmul(a.astype(float), b.astype(float))
+      ctx.case(key=('np_dtype', tuple(a.tolist()), tuple(b.tolist()), str(a.dtype), str(b.dtype)), nontrivial=True)
+      if got.shape != (4,) or np.max(np.abs(got - want)) > 1e-12:
+        ctx.violation(f'quat_mul_np({a.tolist()} [{a.dtype}], {b.tolist()} [{b.dtype}]) = {got.tolist()}, the quaternion product is {want.tolist()}',
+                      {'u': a.tolist(), 'v': b.tolist()}, {'call': 'quat_mul_np', 'predicate': 'dtype'})
+    q = wf if np.any(wf) else np.array([1.0, 0, 0, 0])
+    got = np.asarray(math.rotate_np(vi.astype(np.int64), q), float)
+    want = qmul(qmul(q, np.concatenate([[0.0], vi.astype(float)])), q * np.array([1, -1, -1, -1]))[1:]
+    if np.max(np.abs(got - want)) > 1e-9:
+      ctx.violation(f'rotate_np({vi.tolist()} [int64], {q.tolist()}) = {got.tolist()}, q v q* is {want.tolist()}',
+                    {'v': vi.tolist(), 'q': q.tolist()}, {'call': 'rotate_np', 'predicate': 'dtype'})
+  # nearly (not exactly) unit quaternions, as hand-typed or float32-drifted ones are: composition stays associative and
+  # compatible with application (polynomial identities, so float64 agrees to round-off whatever the norm is)
+  from brax import base
+  for k in range(40):
+    ts = []
+    for _ in range(3):
+      qq = rs.randn(4)
+      qq = qq / np.linalg.norm(qq) * (1.0 + rs.choice([3e-7, 5e-6, 7e-5, 4e-4, -2e-4, 0.0]))
+      ts.append(base.Transform(pos=jp.asarray(rs.randn(3)), rot=jp.asarray(qq)))
+    a, b, c = ts
+    v = jp.asarray(rs.randn(3))
+    left, right = a.do(b).do(c), a.do(b.do(c))
+    ap1 = a.do(b).do(base.Transform(pos=v, rot=jp.asarray([1.0, 0, 0, 0]))).pos
+    ap2 = a.do(b.do(base.Transform(pos=v, rot=jp.asarray([1.0, 0, 0, 0])))).pos
+    err = max(float(np.max(np.abs(np.asarray(left.pos) - np.asarray(right.pos)))), float(np.max(np.abs(np.asarray(left.rot) - np.asarray(right.rot)))),
+              float(np.max(np.abs(np.asarray(ap1) - np.asarray(ap2)))))
+    ctx.case(key=('near_unit', k), nontrivial=True)
+    if not err <= 1e-12:
+      ctx.violation(f'Transform composition with nearly unit quaternions (norms {[float(np.linalg.norm(np.asarray(t.rot))) for t in ts]}) is not '
+                    f'associative / compatible with application: defect {err:.3e}',
+                    {'transforms': [{'pos': np.asarray(t.pos).tolist(), 'rot': np.asarray(t.rot).tolist()} for t in ts]},
+                    {'call': 'Transform.do', 'predicate': 'near_unit'})
+
